@@ -13,6 +13,7 @@ import (
 	"os"
 	"path/filepath"
 	"strings"
+	"sync"
 	"sync/atomic"
 	"time"
 
@@ -377,6 +378,8 @@ func cmdLifecycle(f hx.Flags, r *hx.Result) {
 		lcReentrantDestroy(r, true)
 		lcHookEdges(r)
 		lcDestroyOnFullBuffer(r)
+		lcOverflowRecords(r)
+		lcLazyAcrossKinds(r)
 	}
 }
 
@@ -475,6 +478,199 @@ func lcDestroyOnFullBuffer(r *hx.Result) {
 			r.Violate("console-delivery:event", desc, "an event logged after Destroy did not reach the console")
 		}
 		r.Eval(2)
+	}
+	log.VerifReset()
+}
+
+// lcLazyAcrossKinds: the level check in front of a lazy generator and of the hooks, for every logger kind the library
+// offers (the tag's server may be any of them): below the logger's level neither the generator nor a hook runs and
+// nothing comes out; at or above it each runs exactly once.
+func lcLazyAcrossKinds(r *hx.Result) {
+	console := sys.InstallConsole()
+	tmp, err := os.MkdirTemp(os.Getenv("VERIF_SCRATCH"), "lk-")
+	if err != nil {
+		r.SetInfra("mkdtemp: %v", err)
+		return
+	}
+	defer os.RemoveAll(tmp)
+	log.RegisterTimeRotation("lkh", log.TimeRotation{Interval: time.Hour})
+	type kindT struct {
+		name, typ string
+		ex        map[string]string
+		rec       bool
+	}
+	kinds := []kindT{
+		{"Logger", "Logger", nil, true},
+		{"AsyncLogger", "AsyncLogger", map[string]string{"bufferSize": "100", "bufferFullPolicy": "Block"}, true},
+		{"Console", "Console", nil, false},
+		{"Discard", "Discard", nil, false},
+		{"File", "File", map[string]string{"fileDir": tmp, "fileName": "lk.log"}, false},
+		{"RollingFile", "RollingFile", map[string]string{"fileDir": tmp, "fileName": "lkr.log", "rotation": "lkh"}, false},
+		{"RollingFile async", "RollingFile", map[string]string{"fileDir": tmp, "fileName": "lka.log", "rotation": "lkh", "async": "true"}, false},
+	}
+	for _, k := range kinds {
+		for _, level := range []string{"INFO", "DEBUG", "TRACE", "ERROR"} {
+			log.Destroy()
+			log.VerifReset()
+			sys.ResetAppenders()
+			tag := log.RegisterTag("lk_tag")
+			cfg := sys.Cfg{}
+			cfg.AddRec("lk1")
+			var refs []sys.Ref
+			if k.rec {
+				refs = []sys.Ref{{Ref: "lk1"}}
+			}
+			cfg.AddLogger("lg", k.typ, level, "lk_tag", refs, false, k.ex)
+			if err := log.Refresh(cfg.Map(nil)); err != nil {
+				r.SetInfra("lcLazyAcrossKinds refresh (%s): %v", k.name, err)
+				return
+			}
+			var hooks, gens int64
+			log.TimeNow = func(context.Context) time.Time { atomic.AddInt64(&hooks, 1); return time.Unix(1900000000, 0) }
+			log.StringFromContext = func(context.Context) string { atomic.AddInt64(&hooks, 1); return "lk" }
+			log.FieldsFromContext = func(context.Context) []log.Field { atomic.AddInt64(&hooks, 1); return nil }
+			gen := func() []log.Field { atomic.AddInt64(&gens, 1); return []log.Field{log.Int("id", 1)} }
+			ctx := context.Background()
+			thr := map[string]int{"TRACE": 0, "DEBUG": 1, "INFO": 2, "ERROR": 4}[level]
+			type callT struct {
+				name string
+				rank int
+				lazy bool
+				fn   func()
+			}
+			calls := []callT{
+				{"Trace", 0, true, func() { log.Trace(ctx, tag, gen) }},
+				{"Debug", 1, true, func() { log.Debug(ctx, tag, gen) }},
+				{"Tracef", 0, false, func() { log.Tracef(ctx, tag, "m %d", 1) }},
+				{"Debugf", 1, false, func() { log.Debugf(ctx, tag, "m %d", 1) }},
+				{"Info", 2, false, func() { log.Info(ctx, tag, log.Int("id", 2)) }},
+				{"Warn", 3, false, func() { log.Warn(ctx, tag, log.Int("id", 3)) }},
+				{"Error", 4, false, func() { log.Error(ctx, tag, log.Int("id", 4)) }},
+			}
+			for _, c := range calls {
+				atomic.StoreInt64(&hooks, 0)
+				atomic.StoreInt64(&gens, 0)
+				p := hx.Catch(c.fn)
+				h, g := atomic.LoadInt64(&hooks), atomic.LoadInt64(&gens)
+				enabled := c.rank >= thr
+				desc := map[string]any{"logger_kind": k.name, "logger_level": level, "entry": c.name, "enabled": enabled}
+				wantH, wantG := int64(0), int64(0)
+				if enabled {
+					wantH = 3
+					if c.lazy {
+						wantG = 1
+					}
+				}
+				r.Eval(1)
+				switch {
+				case p != nil:
+					r.Violate("log-panic:kinds", desc, "%s panicked: %v", c.name, p)
+				case g != wantG:
+					r.Violate("lazy-count:kinds", desc, "%s on a %s logger at level %s: the lazy generator ran %d times, want %d", c.name, k.name, level, g, wantG)
+				case h != wantH:
+					r.Violate("hook-count:kinds", desc, "%s on a %s logger at level %s: the three hooks ran %d times in total, want %d", c.name, k.name, level, h, wantH)
+				}
+			}
+			log.TimeNow, log.StringFromContext, log.FieldsFromContext = nil, nil, nil
+			if ok, p := hx.Within(10e9, func() { log.Destroy() }); !ok || p != nil {
+				r.Violate("blocked:Destroy:kinds", map[string]any{"logger_kind": k.name}, "Destroy returned=%v panic=%v", ok, p)
+				log.VerifReset()
+				return
+			}
+			console.Take()
+		}
+	}
+	log.VerifReset()
+}
+
+// lcOverflowRecords: an asynchronous logger whose buffer overflows while the hooks are set.  Whatever the policy drops,
+// every record that does come out is one of the events logged, once, with its own hook results - never an empty or
+// foreign record.
+func lcOverflowRecords(r *hx.Result) {
+	for _, pol := range []string{"Discard", "DiscardOldest"} {
+		log.Destroy()
+		log.VerifReset()
+		sys.ResetAppenders()
+		tag := log.RegisterTag("ov_tag")
+		gate := &sys.RecAppender{Gate: make(chan struct{}), Entered: make(chan int64, 1024)}
+		sys.GateNext["ov1"] = gate
+		cfg := sys.Cfg{}
+		cfg.AddRec("ov1")
+		cfg.AddLogger("lg", "AsyncLogger", "", "ov_tag", []sys.Ref{{Ref: "ov1"}}, false, map[string]string{"bufferSize": "100", "bufferFullPolicy": pol})
+		err := log.Refresh(cfg.Map(nil))
+		delete(sys.GateNext, "ov1")
+		if err != nil {
+			r.SetInfra("lcOverflowRecords refresh: %v", err)
+			return
+		}
+		var mu sync.Mutex
+		var cnt [3]map[int64]int
+		for i := range cnt {
+			cnt[i] = map[int64]int{}
+		}
+		idOf := func(ctx context.Context) int64 { id, _ := ctx.Value(ctxKey{}).(int64); return id }
+		bump := func(h int, ctx context.Context) { mu.Lock(); cnt[h][idOf(ctx)]++; mu.Unlock() }
+		base := time.Date(2033, 1, 2, 3, 4, 5, 0, time.UTC)
+		log.TimeNow = func(ctx context.Context) time.Time {
+			bump(0, ctx)
+			return base.Add(time.Duration(idOf(ctx)) * time.Second)
+		}
+		log.StringFromContext = func(ctx context.Context) string { bump(1, ctx); return fmt.Sprintf("cs-%d", idOf(ctx)) }
+		log.FieldsFromContext = func(ctx context.Context) []log.Field {
+			bump(2, ctx)
+			return []log.Field{log.String("ck1", "v"), log.Int("ck2", int(idOf(ctx)))}
+		}
+		emit := func(id int64) {
+			log.Info(context.WithValue(context.Background(), ctxKey{}, id), tag, log.Int("id", int(id)), log.String("own", "x"))
+		}
+		desc := map[string]any{"policy": pol, "scenario": "worker held inside the appender by event 1, events 2..101 fill the 100 slots, events 102..130 overflow, then the worker is released"}
+		emit(1)
+		select {
+		case <-gate.Entered:
+		case <-time.After(8 * time.Second):
+			r.SetInfra("lcOverflowRecords: the worker did not take the first event")
+			return
+		}
+		ok, p := hx.Within(10e9, func() {
+			for id := int64(2); id <= 130; id++ {
+				emit(id)
+			}
+		})
+		log.TimeNow, log.StringFromContext, log.FieldsFromContext = nil, nil, nil
+		close(gate.Gate)
+		if !ok || p != nil {
+			r.Violate("log-panic:overflow", desc, "logging into the full buffer: returned=%v panic=%v", ok, p)
+			log.VerifReset()
+			continue
+		}
+		if ok, p := hx.Within(10e9, func() { log.Destroy() }); !ok || p != nil {
+			r.Violate("blocked:Destroy:overflow", desc, "Destroy returned=%v panic=%v", ok, p)
+			log.VerifReset()
+			return
+		}
+		r.Eval(130)
+		seen := map[int64]int{}
+		for _, rc := range sys.Appender("ov1").Recs() {
+			id := rc.ID
+			seen[id]++
+			switch {
+			case id < 1 || id > 130:
+				r.Violate("record-foreign:overflow", desc, "a record came out that is none of the events logged: id %d level %s time %v keys %v", id, rc.Level, rc.Time, rc.Keys)
+			case seen[id] > 1:
+				r.Violate("event-delivery:overflow", desc, "event %d was recorded %d times", id, seen[id])
+			case cnt[0][id] != 1 || cnt[1][id] != 1 || cnt[2][id] != 1:
+				r.Violate("hook-count:overflow", desc, "event %d: time / string / fields hooks ran %d / %d / %d times, want once each", id, cnt[0][id], cnt[1][id], cnt[2][id])
+			case !rc.Time.Equal(base.Add(time.Duration(id) * time.Second)):
+				r.Violate("record-time", desc, "event %d: record time %v, the hook returned %v", id, rc.Time, base.Add(time.Duration(id)*time.Second))
+			case rc.CtxString != fmt.Sprintf("cs-%d", id):
+				r.Violate("record-ctxstring", desc, "event %d: context string %q", id, rc.CtxString)
+			case len(rc.Keys) != 4 || rc.Keys[0] != "ck1" || rc.Keys[1] != "ck2" || rc.Keys[2] != "id" || rc.Keys[3] != "own":
+				r.Violate("record-ctxfields", desc, "event %d: record keys %v, want ck1 ck2 id own", id, rc.Keys)
+			}
+		}
+		if len(seen) < 100 {
+			r.Violate("event-delivery:overflow", desc, "only %d of the 130 events came out; the buffer alone holds 100", len(seen))
+		}
 	}
 	log.VerifReset()
 }
